@@ -23,11 +23,8 @@ FN_NAME = {1: "refine_hmmscan_results(neighbour_mode=True)", 2: "refine_hmmscan_
 KNOWN_TEXT = {
     "greedy_replacement_margin": "refine_hmmscan_results returns hits overlapping by more than 20% of the longer profile: "
                                  "_remove_overlapping replaces `previous` without re-checking the hit before it",
-    "filter_groups_not_merged": "filter_results keeps two hits of one chain of >20 overlaps and its result depends on the order of "
-                                "the gene's hit list: the pair loop adds a bridging pair to every group it touches but never "
-                                "unites the groups",
 }
-# repaired classes (F41, F42, F43): nothing is suppressed for them; a case of one of them is a counterexample
+# repaired classes (F41, F42, F43, FC13a): nothing is suppressed for them; a case of one of them is a counterexample
 REPAIRED_TEXT = {
     "merge_truncates": "HMMResult.merge of a hit with a nested or equal-start fragment of the same profile returns a hit "
                        "that does not span both (class merge_truncates, repaired as F41)",
@@ -35,6 +32,8 @@ REPAIRED_TEXT = {
                                    "(class hmmer_first_short_duplicate, repaired as F42)",
     "hmmer_equal_start_order": "hmmer.remove_overlapping: the result depends on the order of the input list "
                                "(class hmmer_equal_start_order, repaired as F43)",
+    "filter_groups_not_merged": "filter_results keeps more than the single best-scoring hit of a chain of >20 overlaps (two groups "
+                                "of one chain are not united; class filter_groups_not_merged, repaired as FC13a)",
 }
 
 
@@ -482,15 +481,16 @@ CORPUS = [
     (3, (10, [100, 100, 100], [(0, 43, 45, 20), (2, 43, 52, 20)])),
     (7, ((0, 10, 20, 5, 20), (0, 10, 80, 1, 100))),
     (7, ((0, 10, 50, 1, 100), (0, 0, 100, 5, 20))),
-    # FC13a filter_groups_not_merged (known): a chain v4-v0-v2-v1-v3 listed as v0 v3 v1 v4 v2 keeps v3 and v4
+    # FC13a filter_groups_not_merged (repaired; regression witness): a chain v4-v0-v2-v1-v3 listed as v0 v3 v1 v4 v2 kept
+    # v3 and v4, now only v4
     (5, ([[0, 1, 2, 3, 4]], [0, 3, 1, 4, 2],
          [[(0, 0, 70, 170, 20, 0), (3, 3, 280, 380, 180, 3), (1, 1, 210, 310, 60, 1), (4, 4, 0, 100, 200, 4),
            (2, 2, 140, 240, 40, 2)]])),
-    # the same hits in positional order (one group, one survivor)
+    # the same hits in positional order (one survivor before and after the repair)
     (5, ([[0, 1, 2, 3, 4]], [4, 0, 2, 1, 3],
          [[(4, 4, 0, 100, 200, 4), (0, 0, 70, 170, 20, 0), (2, 2, 140, 240, 40, 2), (1, 1, 210, 310, 60, 1),
            (3, 3, 280, 380, 180, 3)]])),
-    # a chain of four in per-profile order (two groups grow into one another: guard holds, one survivor)
+    # a chain of four in per-profile order (two groups are opened, then united: one survivor)
     (5, ([[0, 1, 2, 3]], [0, 1, 2, 3],
          [[(0, 0, 0, 100, 180, 0), (1, 1, 210, 310, 200, 1), (2, 2, 70, 170, 100, 2), (3, 3, 140, 240, 80, 3)]])),
 ]
@@ -591,7 +591,7 @@ def run(chk):
         fn = cases[i][1]
         replay = {"function": fn, "flat": cases[i], "input": describe(cases[i]), "implementation": impl_outs[i],
                   "model": model_outs[i], "spec_verdict_on_implementation_output": verdict}
-        if len(verdict) != {1: 6, 2: 6, 3: 4, 5: 4, 7: 2}[fn] or verdict == [-999]:
+        if len(verdict) != {1: 6, 2: 6, 3: 4, 5: 3, 7: 2}[fn] or verdict == [-999]:
             chk.violation("broken-correspondence", f"{FN_NAME[fn]}: the implementation's output does not decode",
                           dict(replay, theorem_or_correspondence="spec decoder"))
             continue
@@ -604,22 +604,23 @@ def run(chk):
                               "e-value of its operands", dict(replay, theorem_or_correspondence="C13_merge_fields"))
             continue
         if fn == 5:
-            # [ok; applicable (domain, pairwise distinct scores); guard (groups closed); result = best of every component]
-            _ok, applicable, guard, same = verdict
+            # [ok; applicable (domain, pairwise distinct scores); result = best of every component]
+            _ok, applicable, same = verdict
             if not applicable:
                 chk.count("filter_results_spec_not_applicable(score ties)")
                 continue
             chk.count("filter_results_spec_evaluated")
-            chk.count("filter_results_guard_" + ("holds" if guard else "fails"))
             if same:
                 continue
-            if guard:
-                chk.violation("counterexample", "filter_results: the survivors are not the best-scoring hit of every group of hits "
-                              "chained by overlaps > 20 although the groups the loop must build are closed",
-                              dict(replay, theorem_or_correspondence="C13_filter_results_guarded"))
-            else:
+            out, spec = impl_outs[i], model_outs[i]
+            if out[0] == 0 and spec[0] == 0 and out[1] > spec[1]:
+                # more survivors than components: the repaired class FC13a (no suppression)
                 chk.count("class_filter_groups_not_merged")
-                finding(chk, known, "filter_groups_not_merged", agree[i], replay)
+                repaired(chk, "filter_groups_not_merged", "C13_filter_results_spec / C13_filter_results_components", replay)
+            else:
+                chk.violation("counterexample", "filter_results: the survivors are not the best-scoring hit of every group of hits "
+                              "chained by overlaps > 20",
+                              dict(replay, theorem_or_correspondence="C13_filter_results_spec"))
             continue
         if fn in (1, 2):
             _ok, is_sorted, provenance, margin, coverage, margin_guard = verdict
@@ -746,9 +747,9 @@ def replay(chk, path):
             guard = bits.pop()
             if not guard and "greedy_replacement_margin" in known_classes():
                 bits[2] = 1   # the pairwise margin outside the guard is the recorded finding F21
-        if fn == 5 and len(bits) == 3:
-            applicable, guard, same = bits
-            bits = [1] if (not applicable or same or (not guard and "filter_groups_not_merged" in known_classes())) else [0]
+        if fn == 5 and len(bits) == 2:
+            applicable, same = bits
+            bits = [1] if (not applicable or same) else [0]
         still = still or not all(bits)
     if fn in (1, 2, 3):
         args = decode_args(flat)
